@@ -98,6 +98,9 @@ def exec_loop(ex, state, st, kind):
         # alternatively a loop may be keyed by its header text (robust inside very large dispatch functions)
         key = ("iter:" + ast.unparse(st.iter)) if kind == "for" else ("while:" + ast.unparse(st.test))
         spec = ex.loop_specs.get(key)
+    if spec is None and kind == "for":
+        # ... or by its target (robust when the iterable is first bound to a local)
+        spec = ex.loop_specs.get("target:" + ast.unparse(st.target))
     if spec is None:
         return unroll(ex, state, st, kind)
     return cut_loop(ex, state, st, kind, spec, ordinal)
